@@ -10,7 +10,8 @@ import (
 // row is the reference table of the generic program: what was accepted by Store, by value.
 type row struct {
 	id      string
-	created int64
+	created int64 // the key the record was stored under
+	recC    int64 // the record's own Created field
 	key     []byte
 	revoked bool
 	hasPM   bool
@@ -19,7 +20,7 @@ type row struct {
 }
 
 func sameRecord(got *ae.EnvelopeKeyRecord, r *row) bool {
-	ok := vx.And(got.Created == r.created, vx.BytesEq(got.EncryptedKey, r.key))
+	ok := vx.And(got.Created == r.recC, vx.BytesEq(got.EncryptedKey, r.key))
 	ok = vx.And(ok, got.Revoked == r.revoked)
 	if (got.ParentKeyMeta != nil) != r.hasPM {
 		return false
@@ -50,11 +51,15 @@ func program(m ae.Metastore, tag string, keyLens []int, afterOp func()) {
 		case 0: // Store
 			c := vx.Timestamp("created")
 			klen := keyLens[vx.Choice("keylen", len(keyLens))]
-			rec := &ae.EnvelopeKeyRecord{ID: id, Created: c, EncryptedKey: vx.Bytes("key", klen), Revoked: vx.Bool("revoked")}
+			// the record's own Created normally equals the key it is stored under; the table must be keyed by the
+			// argument either way
+			// (an unconstrained symbolic stamp: equal to the key or not, without a fork)
+			rc := vx.Timestamp("rec_created")
+			rec := &ae.EnvelopeKeyRecord{ID: id, Created: rc, EncryptedKey: vx.Bytes("key", klen), Revoked: vx.Bool("revoked")}
 			if vx.Choice("parent", 2) == 1 {
 				rec.ParentKeyMeta = &ae.KeyMeta{ID: "_SK_svc_prod", Created: vx.Timestamp("pc")}
 			}
-			r := row{id: id, created: c, key: append([]byte(nil), rec.EncryptedKey...), revoked: rec.Revoked}
+			r := row{id: id, created: c, recC: rc, key: append([]byte(nil), rec.EncryptedKey...), revoked: rec.Revoked}
 			if rec.ParentKeyMeta != nil {
 				r.hasPM, r.pmID, r.pmC = true, rec.ParentKeyMeta.ID, rec.ParentKeyMeta.Created
 			}
